@@ -131,11 +131,11 @@ theorem ikcreateOrAdd_J {c : String → String} (hc : ∀ x, c (c x) = c x) {k :
             | some n => exact absurd ⟨hmn, by simp [hnm]⟩ hguard
           exact knormal_none this
         unfold ikchooseId at hkey
-        by_cases h0 : c m.id = ""
-        · simp only [h0, if_true] at hkey ⊢
+        by_cases h0 : m.id = "" ∨ c m.id = ""
+        · rw [if_pos h0] at hkey ⊢
           exact J_kinsert hj hfresh (ikgenId_idem hc hkey).symm (hnn _ rfl)
-        · simp only [h0, if_false, Option.some.injEq] at hkey ⊢
-          exact J_kinsert hj hfresh hkey.symm (hnn _ rfl)
+        · rw [if_neg h0] at hkey ⊢
+          exact J_kinsert hj hfresh (Option.some.inj hkey).symm (hnn _ rfl)
 
 theorem ikupdateMode_J {c : String → String} {k : KSt} (hj : J c k.recs) (m : Mode) (mask : Option Mask) (w : WOpts)
     (ht : w.Tame) : J c (ikupdateMode c k m mask w).1.recs := by
@@ -189,16 +189,18 @@ theorem ikupdateMode_J {c : String → String} {k : KSt} (hj : J c k.recs) (m : 
 
 theorem ikdeleteMode_J {c : String → String} {k : KSt} (hj : J c k.recs) (id : String) (am : Bool) (d : DOpts) :
     J c (ikdeleteMode c k id am d).1.recs := by
-  unfold ikdeleteMode
+  unfold ikdeleteMode ikdeleteBody
   split
   · exact hj
   · split
-    · split <;> exact hj
+    · exact hj
     · split
-      · exact hj
+      · split <;> exact hj
       · split
         · exact hj
-        · exact J_kerase hj _
+        · split
+          · exact hj
+          · exact J_kerase hj _
 
 theorem ikchangeActive_J {c : String → String} {k : KSt} (hj : J c k.recs) (id : String) (now : Nat) :
     J c (ikchangeActive c k id now).1.recs := by
@@ -268,5 +270,176 @@ theorem J_count {c : String → String} : ∀ {l : List Rec}, J c l → ((l.map 
         subst this
         exact hnd.1 (List.mem_map.mpr ⟨e, he, rfl⟩)
       simp [ha, hnone]
+
+/-! ### I2 / I3 behind the interceptor, any spelling (after 00bc77e + c078347)
+
+`A`: once changed, the canonical form of the active mode's id is a key of the collection (the active mode names a
+stored mode, up to spelling).  Every operation of `ikstep c` keeps it — whatever its options — in a state that
+satisfies `J`; the one operation that could break it, a delete under a key equal to `c active.id`, is refused by the
+guards that look at what the collection finds. -/
+
+def A (c : String → String) (k : KSt) : Prop := k.changed = true → c k.active.id ∈ k.recs.map (·.1)
+
+theorem kfindL_isSome_iff (l : List Rec) (key : String) : (kfindL l key).isSome = true ↔ key ∈ l.map (·.1) := by
+  unfold kfindL
+  rw [Option.isSome_map, List.find?_isSome]
+  constructor
+  · rintro ⟨e, he, hk⟩
+    exact List.mem_map.mpr ⟨e, he, by simpa using hk⟩
+  · intro h
+    obtain ⟨e, he, hk⟩ := List.mem_map.mp h
+    exact ⟨e, he, by simpa using hk⟩
+
+/-- the guards of `deleteMode`: a delete under ANY spelling of the key the active mode's id leads to is refused -/
+theorem ikdeleteMode_refuses {c : String → String} {k : KSt} (hin : c k.active.id ∈ k.recs.map (·.1)) {id : String}
+    (heq : c id = c k.active.id) (am : Bool) (d : DOpts) :
+    ikdeleteMode c k id am d = (k, .err .failedPrecondition) := by
+  unfold ikdeleteMode
+  by_cases ha : id = k.active.id
+  · rw [if_pos ha]
+  · rw [if_neg ha]
+    have hs : (kfind k (c k.active.id)).isSome = true := (kfindL_isSome_iff _ _).mpr hin
+    have hna : iknamesActive c k id = true := by
+      unfold iknamesActive
+      rw [heq]
+      cases hf : kfind k (c k.active.id) with
+      | none => simp [hf] at hs
+      | some cur => simp
+    rw [if_pos hna]
+
+theorem ikcreateOrAdd_A {c : String → String} {k : KSt} (h : A c k) (m : Mode) (cands : List String) :
+    A c (ikcreateOrAdd c k m cands).1 := by
+  unfold ikcreateOrAdd
+  split
+  · exact h
+  · split
+    · exact h
+    · split
+      · exact h
+      · intro hch
+        obtain ⟨e, he, hk⟩ := List.mem_map.mp (h hch)
+        exact List.mem_map.mpr ⟨e, (mem_kinsert _ _ _ e).mpr (Or.inr he), hk⟩
+
+theorem A_kstore {c : String → String} {k : KSt} (h : A c k) (key : String) (m : Mode) :
+    A c { k with recs := kstore key m k.recs } := by
+  intro hch
+  show _ ∈ (kstore key m k.recs).map (·.1)
+  rw [keys_kstore]
+  exact h hch
+
+theorem A_kinsert {c : String → String} {k : KSt} (h : A c k) (key : String) (m : Mode) :
+    A c { k with recs := kinsert key m k.recs } := by
+  intro hch
+  obtain ⟨e, he, hk⟩ := List.mem_map.mp (h hch)
+  exact List.mem_map.mpr ⟨e, (mem_kinsert _ _ _ e).mpr (Or.inr he), hk⟩
+
+theorem ikupdateMode_A {c : String → String} {k : KSt} (h : A c k) (m : Mode) (mask : Option Mask) (w : WOpts) :
+    A c (ikupdateMode c k m mask w).1 := by
+  unfold ikupdateMode
+  split
+  · exact h
+  · split
+    · exact h
+    · split
+      · exact h
+      · split
+        · split
+          · exact h
+          · split
+            · exact h
+            · split
+              · exact h
+              · exact A_kstore h _ _
+        · split
+          · exact h
+          · split
+            · exact h
+            · split
+              · exact h
+              · exact A_kinsert h _ _
+
+theorem ikdeleteMode_A {c : String → String} {k : KSt} (h : A c k) (id : String) (am : Bool) (d : DOpts) :
+    A c (ikdeleteMode c k id am d).1 := by
+  by_cases heq : k.changed = true ∧ c id = c k.active.id
+  · rw [ikdeleteMode_refuses (h heq.1) heq.2]
+    exact h
+  · unfold ikdeleteMode ikdeleteBody
+    split
+    · exact h
+    · split
+      · exact h
+      · split
+        · split <;> exact h
+        · split
+          · exact h
+          · split
+            · exact h
+            · intro hch
+              have hch' : k.changed = true := hch
+              have hne : c k.active.id ≠ c id := fun e => heq ⟨hch', e.symm⟩
+              obtain ⟨e, he, hk⟩ := List.mem_map.mp (h hch')
+              refine List.mem_map.mpr ⟨e, ?_, hk⟩
+              unfold kerase
+              exact List.mem_filter.mpr ⟨he, by simp [hk, hne]⟩
+
+theorem ikchangeActive_A {c : String → String} {k : KSt} (hj : J c k.recs) (h : A c k) (id : String) (now : Nat) :
+    A c (ikchangeActive c k id now).1 := by
+  unfold ikchangeActive
+  cases hf : kfind k (c id) with
+  | none => exact h
+  | some m =>
+    intro _
+    have hmem : (c id, m) ∈ k.recs := kfindL_some hf
+    have hkey : c id = c m.id := hj.kc _ hmem
+    have hid : (if k.active.id ≠ m.id then { m with start := some now } else m).id = m.id := by split <;> rfl
+    show c (if k.active.id ≠ m.id then { m with start := some now } else m).id ∈ k.recs.map (·.1)
+    rw [hid, ← hkey]
+    exact List.mem_map.mpr ⟨_, hmem, rfl⟩
+
+theorem ikstep_A {c : String → String} {k : KSt} (hj : J c k.recs) (h : A c k) (op : Op) : A c (ikstep c k op).1 := by
+  cases op with
+  | create m cands => simp only [ikstep]; split; exact h; exact ikcreateOrAdd_A h m cands
+  | sCreate m cands => simp only [ikstep]; split; exact h; exact ikcreateOrAdd_A h m cands
+  | add m =>
+    simp only [ikstep]
+    split
+    · exact h
+    · have := ikcreateOrAdd_A h m []
+      split
+      · rename_i hr; rw [hr] at this; exact this
+      · exact this
+  | update m mask w => simp only [ikstep]; split; exact h; exact ikupdateMode_A h m mask w
+  | sUpdate m mask => simp only [ikstep]; split; exact h; exact ikupdateMode_A h m mask {}
+  | delete id am d => exact ikdeleteMode_A h id am d
+  | sDelete id am =>
+    simp only [ikstep]
+    split
+    · exact h
+    · have := ikdeleteMode_A (c := c) h id am {}
+      split
+      · rename_i hr; rw [hr] at this; exact this
+      · exact this
+  | setActive m =>
+    simp only [ikstep, iksetActive]
+    cases hf : kfind k (c m.id) with
+    | none => exact h
+    | some st =>
+      intro _
+      exact (kfindL_isSome_iff _ _).mp (by show (kfind k (c m.id)).isSome = true; rw [hf]; rfl)
+  | changeActive id now => exact ikchangeActive_A hj h id now
+  | sChangeActive id now => simp only [ikstep]; split; exact h; exact ikchangeActive_A hj h id now
+  | clear now => simp only [ikstep, ikchangeToNormal]; split; exact h; exact ikchangeActive_A hj h _ now
+  | sClear now => simp only [ikstep, ikchangeToNormal]; split; exact h; exact ikchangeActive_A hj h _ now
+  | findMode id => exact h
+  | sCreateNil => exact h
+
+theorem ikrun_JA {c : String → String} (hc : ∀ x, c (c x) = c x) : ∀ (ops : List Op) (k : KSt), J c k.recs → A c k →
+    (∀ op ∈ ops, op.Tame) → J c (ikrun c k ops).recs ∧ A c (ikrun c k ops) := by
+  intro ops
+  induction ops with
+  | nil => intro k hj ha _; exact ⟨hj, ha⟩
+  | cons op ops ih =>
+    intro k hj ha ht
+    exact ih _ (ikstep_J hc hj op (ht op (by simp))) (ikstep_A hj ha op) (fun o ho => ht o (by simp [ho]))
 
 end ScVerif.C19
